@@ -25,7 +25,7 @@ def make_copy():
 
 
 def run_suite(repo):
-    p = sh("cd %s && env -u COCOASM_VERIF /venv/bin/python -m pytest -q -p no:cacheprovider --timeout=900 2>&1 | tail -1" % repo)
+    p = sh("cd %s && env -u COCOASM_VERIF timeout 300 /venv/bin/python -m pytest -q -p no:cacheprovider --timeout=60 2>&1 | tail -1" % repo)
     return p.stdout.strip()
 
 
